@@ -212,7 +212,7 @@ fn is_subscript_char(c: char) -> bool {
     let c_u32 = c as u32;
 
     // See https://en.wikipedia.org/wiki/Unicode_subscripts_and_superscripts#Superscripts_and_subscripts_block
-    (0x2080..=0x209CF).contains(&c_u32)
+    (0x2080..=0x209C).contains(&c_u32)
 }
 
 fn is_identifier_start(c: char) -> bool {
